@@ -106,6 +106,13 @@ CHECKS['C10'] = ('proof', 'FinalConstruct over the slot state: succeeds iff ever
                  'late client registration refused; the multi-client port in every position among several provides ports.',
                  'partial: as C09; mock check_bindings() tests every event (contract of Dezyne\'s generator).', '§5 C10')
 
+CHECKS['C04'] = ('proof', 'Selector + per-client lambdas as a state machine transcribed from the emitted C++: out-events go to exactly the selected client or nobody; '
+                 'non-granting claims change nothing; every client in-event is forwarded once; for every history in which only the holder releases, delivery follows '
+                 'the holder specification; REFUTED in general by a non-holder release (K3); claim/release events are those named in the configuration; registration '
+                 'closes at final construction (Properties/C04.v). Leg B: compiled multi-client shells driven through random and all short operation sequences, each '
+                 'operation compared with the Gallina model (extracted) and with the holder specification.',
+                 'partial: C++ meaning of the selector text validated by running. Known finding K3 reproduced on every run. Repaired defects F5, F7, F9.', '§5 C04')
+
 NOT_YET = {
 }
 
